@@ -6,17 +6,20 @@ from concurrent.futures import ThreadPoolExecutor
 args = [a for a in sys.argv[1:] if not a.startswith('--')]
 d = args[0]
 out = args[1] if len(args) > 1 else os.path.join(d, 'BENIGN_MATRIX.json')
-PIDS = [c['property_id'] for c in json.load(open('/verif/MANIFEST.json'))['checks']]
-st = subprocess.run(['git', '-C', '/repo', 'status', '--porcelain'], capture_output=True, text=True).stdout.strip()
+REPO = os.environ.get('VERIF_REPO', '/repo')
+CHECK = os.environ.get('VERIF_CHECK', '/verif/check')
+SKIP = set(os.environ.get('VERIF_SKIP', '').split(','))
+PIDS = [c['property_id'] for c in json.load(open('/verif/MANIFEST.json'))['checks'] if c['property_id'] not in SKIP]
+st = subprocess.run(['git', '-C', REPO, 'status', '--porcelain'], capture_output=True, text=True).stdout.strip()
 if st:
-    sys.exit('/repo is not clean:\n' + st)
+    sys.exit(REPO + ' is not clean:\n' + st)
 res = {}
 if os.path.exists(out):
     res = json.load(open(out))
 
 
 def run(pid):
-    r = subprocess.run(['/verif/check', pid], cwd='/verif', capture_output=True, text=True)
+    r = subprocess.run([CHECK, pid], cwd=os.path.dirname(CHECK), capture_output=True, text=True)
     finds = [l[8:].split(' at ')[0] for l in r.stdout.splitlines() if l.startswith('FINDING ')]
     tool = [l for l in r.stdout.splitlines() if l.startswith('TOOL-FAILURE')]
     return pid, r.returncode, finds, tool
@@ -26,7 +29,7 @@ for f in sorted(glob.glob(os.path.join(d, '*.diff'))):
     name = os.path.basename(f)[:-5]
     if name in res and '--force' not in sys.argv:
         continue
-    a = subprocess.run(['git', '-C', '/repo', 'apply', f], capture_output=True, text=True)
+    a = subprocess.run(['git', '-C', REPO, 'apply', f], capture_output=True, text=True)
     if a.returncode != 0:
         res[name] = {'applies': False, 'err': a.stderr[-300:]}
         print(name, 'DOES NOT APPLY')
@@ -41,6 +44,6 @@ for f in sorted(glob.glob(os.path.join(d, '*.diff'))):
         res[name] = {'applies': True, 'alarms': alarms, 'tool_failures': tools}
         print(name, 'ALARMS ' + json.dumps(alarms) if alarms else 'silent', ('TOOL ' + str(list(tools))) if tools else '')
     finally:
-        subprocess.run(['git', '-C', '/repo', 'checkout', '--', '.'])
-        subprocess.run(['git', '-C', '/repo', 'clean', '-fdq'])
+        subprocess.run(['git', '-C', REPO, 'checkout', '--', '.'])
+        subprocess.run(['git', '-C', REPO, 'clean', '-fdq', '-e', 'Cargo.lock'])
     json.dump(res, open(out, 'w'), indent=1)
